@@ -180,10 +180,16 @@ class Space:
         term = z3.simplify(term)
         if z3.is_int_value(term):
             return term.as_long()
+        tries = 0
         while True:
             v = self._model().eval(term, model_completion=True).as_long()
             if self.decide(term == v):
                 return v
+            tries += 1
+            if tries > 48:
+                # an integer with an unbounded (or very large) range is being used as a container index / hash key:
+                # enumerating its values would never end
+                raise Inconclusive("concretisation of an integer with more than 48 feasible values")
 
     # ---------------------------------------------------------------- inputs
     def fresh(self, stem):
